@@ -74,22 +74,31 @@ def boolQuant : Term → Bool
 
 /-- `PolarityCNFizer.convert` (the inherited `convert` on the polarity walk, root polarity `True`) -/
 def convert (E : Env) (t : Term) : Option (List Clause) :=
-  if boolQuant t then none else some (finish E (encP E t true).1 (encP E t true).2)
+  if boolQuant t || ph t then none else some (finish E (encP E t true).1 (encP E t true).2)
+
+/-- why `convert` raises: a quantifier at a Boolean position (`NotImplementedError`), or the root is not a formula —
+then either `_get_children` rejects it (`AssertionError`: constants, arithmetic / bit-vector / array-store terms, a
+term-level `ite`) or the walk answers the placeholder string and unpacking it fails (`ValueError`: symbols,
+applications, string operators, array reads) -/
+def convertErr (t : Term) : Option String :=
+  if boolQuant t then some "NotImplementedError"
+  else if ph t then
+    (match t.op with
+     | .symbol | .function | .arraySelect | .strLength | .strConcat | .strIndexOf | .strReplace | .strSubstr
+     | .strCharAt | .strToInt | .intToStr => some "ValueError"
+     | _ => some "AssertionError")
+  else none
 
 def convertAsFormula (E : Env) (t : Term) : Option Term := (convert E t).map formulaOf
 
-/-- nodes for which `_key_var` is called by the polarity walk (atoms are not entered) -/
-def boolNodes : Term → List Term
-  | .node op args p =>
-    match op with
-    | .and | .or | .not | .implies | .iff => (args.map boolNodes).flatten ++ [.node op args p]
-    | .ite => if ph (.node op args p) then [] else (args.map boolNodes).flatten ++ [.node op args p]
-    | _ => []
-
+/-- `_key_var` is called on the key-wanting nodes of the Boolean skeleton `CNF.boolNodes` (atoms are not entered) -/
 def keyOrder (t : Term) : List Term := dedup ((boolNodes t).filter wantsKey)
 
-def keyTable (t : Term) : List (Term × Sym) :=
-  assignKeys fvName ⟨t.fv.map (·.name), 0⟩ (keyOrder t)
+def keyTableIn (s : Supply) (t : Term) : List (Term × Sym) := assignKeys fvName s (keyOrder t)
+
+def keyTable (t : Term) : List (Term × Sym) := keyTableIn ⟨t.fv.map (·.name), 0⟩ t
+
+def envIn (simp : Term → Term) (s : Supply) (t : Term) : Env := ⟨lookupKey (keyTableIn s t), simp⟩
 
 def stdEnv (simp : Term → Term) (t : Term) : Env := ⟨lookupKey (keyTable t), simp⟩
 
